@@ -233,6 +233,8 @@ mut("M106", "conn.go", "			b := []byte(s)\n			for ; i < len(b); i++ {", "			b :=
 mut("P15r", "parse.go", "			case '(', ')', '<', '[', ']', ':', ';', '@', '\\\\', ',', '\"':\n				return \"\", fmt.Errorf(\"malformed domain\")", "			case '(', ')', '[', ']', ';', '\\\\', ',', '\"':\n				return \"\", fmt.Errorf(\"malformed domain\")", ["C11"], "bounded:path-parser-vs-rfc5321", note="regression of fix 77e9e9f: '<', '@' and ':' accepted in a domain again")
 mut("M108", "parse.go", "	} else if localPart == \"\" {\n		return \"\", fmt.Errorf(\"local-part is empty\")\n	}", "	}", ["C11"], "bounded:path-parser-vs-rfc5321", note="empty local part accepted")
 mut("M109", "server.go", "		if lerr := l.Close(); lerr != nil && err == nil {\n			err = lerr\n		}\n	}\n\n	for conn := range s.conns {", "		if lerr := l.Close(); lerr != nil {\n			err = lerr\n			break\n		}\n	}\n\n	for conn := range s.conns {", ["C20"], "(*Server).Close/", note="Server.Close stops closing listeners at the first failure")
+mut("P16r", "conn.go", "			if value != \"\" {\n				c.writeResponse(501, EnhancedCode{5, 5, 4}, \"SMTPUTF8 takes no value\")\n				return\n			}\n", "", ["C11"], "flagvalues", note="regression of fix d9528c8: SMTPUTF8=x accepted")
+mut("P16r2", "parse.go", "			if m[1] == \"\" {\n				return nil, fmt.Errorf(\"failed to parse arg string: %q\", arg)\n			}\n", "", ["C11"], "parseArgs", note="regression of fix d9528c8: empty parameter value accepted")
 # ---------------------------------------------------------------- client.go
 mut("M104", "client.go", "		if resp == nil {\n			break\n		}\n		resp64 = make([]byte, encoding.EncodedLen(len(resp)))", "		if len(resp) == 0 {\n			break\n		}\n		resp64 = make([]byte, encoding.EncodedLen(len(resp)))", ["C09"], "success-means-the-server-said-235", note="client stops the AUTH exchange on an empty (non-nil) response and reports success")
 mut("M30", "client.go", "	if d.closed {\n		return fmt.Errorf(\"smtp: data writer closed twice\")\n	}\n	d.closed = true\n", "	if d.closed {\n		return fmt.Errorf(\"smtp: data writer closed twice\")\n	}\n", ["C16"], "always-closed-afterwards", note="dataCloser never marked closed (also regression of fix 755bba6)")
